@@ -60,6 +60,17 @@ PROPS = {
         required="spec",
         nontrivial="history reuses an index or contains a failing batch deletion",
     ),
+    "C18": dict(
+        domain="derive", module="Props.C18",
+        theorems=["C18_round_trip", "C18_round_trip_supported", "C18_entities_through_mapping",
+                  "C18_panic_only_unmarked", "C18_supported_never_fails", "C18_tuple_fields_in_order",
+                  "C18_named_fields_in_order", "C18_enum_by_name", "C18_variant_tuple_fields_in_order",
+                  "C18_variant_named_fields_in_order", "C18_skip_verbatim", "C18_own_conversion",
+                  "C18_data_has_derived_shape",
+                  "C18_storage_default", "C18_storage_explicit", "C18_storage_implicit"],
+        required="faithful",
+        nontrivial="value with >= 3 nodes and an entity in a converted position, or a storage case",
+    ),
 }
 
 # ------------------------------------------------------------------ known findings
@@ -496,12 +507,18 @@ def run_check(pid, tier, seed):
     dom = PROPS[pid]["domain"]
     if dom == "world":
         return check_world(pid, tier, seed)
+    if dom == "derive":
+        from . import derive_check
+        return derive_check.check_derive(pid, tier, seed)
     raise SystemExit("unknown domain")
 
 
 def replay(path):
     obj = json.load(open(path))
     pid = obj["property"]
+    if obj.get("domain") == "derive":
+        from . import derive_check
+        return derive_check.replay(obj)
     if "encoded" not in obj:
         print(json.dumps(obj, indent=1))
         return 1
